@@ -24,7 +24,7 @@ LEVEL_TEXT = ('Tie: the coefficient formula / guard / term count / exponents of 
               'rho = 1 at a farthest masked sample and <= 1 on the mask — UNDER 0 < zRmax (the farthest masked sample is not the origin itself: this EXCLUDES one-sample masks, the residual known finding) and a square root that reflects order '
               '(rho_one_at_farthest, rho_one_is_farthest); values vanish outside the mask (the regenerated Gen.zernCore selects with the mask since 99180f6); the support-only theorems (depends_on_support_only, support_scale_invariant) are '
               'NEAR-DEFINITIONAL: they say that decide(x != 0) agrees for masks with the same support — the real content, that the code casts the mask to bool before any use, is checked structurally by the translator spec for zernike() ONLY, '
-              'for zernike_coordinates it rests on pins and on the comparison on weighted masks. The hypotheses of the coordinate theorems are shown satisfiable on a concrete 2x3 mask over Q (coordinate_theorems_nonvacuous); '
+              'for zernike_coordinates it rests on pins and on the comparison on weighted masks. The centroid hypothesis is equivalent to the mask having a sample inside the array (centroid_hypothesis_iff_nonempty), so the origin clause holds for every non-empty mask (coords_origin_is_centroid_of_nonempty); the hypotheses of the coordinate theorems are shown satisfiable on a concrete 2x3 mask over Q (coordinate_theorems_nonvacuous); '
               'the sign convention of the odd modes is a theorem: Z_j = -sqrt2 sqrt(n+1) R sin(|m| theta) for odd j, m != 0 (odd_mode_sign_convention). '
               '|R_n^m| <= 1 on [-1,1] and hence |Z_j| <= 1 on the unit disk without normalisation for n <= 20 (j <= 231): 2^n R_n^m = sum_t W_t T_t with Chebyshev T_t(cos x) = cos tx and '
               'integer weights W_t >= 0 summing to 2^n, weights and coefficient identity decided exactly by the kernel, the inequality proved. '
